@@ -196,4 +196,36 @@ impl<K: PartialEq + Copy, V> SlotMap<K, V> {
             .iter_mut()
             .filter_map(|s| s.as_mut().map(|(k, v)| (&*k, v)))
     }
+    // The rest of HashMap's everyday API, so that a change to the crate that starts using it
+    // still builds against the model (the current sources do not call these).
+    pub fn iter(&self) -> impl Iterator<Item = (&K, &V)> {
+        self.slots.iter().filter_map(|s| s.as_ref().map(|(k, v)| (k, v)))
+    }
+    pub fn values(&self) -> impl Iterator<Item = &V> {
+        self.slots.iter().filter_map(|s| s.as_ref().map(|(_, v)| v))
+    }
+    pub fn values_mut(&mut self) -> impl Iterator<Item = &mut V> {
+        self.slots.iter_mut().filter_map(|s| s.as_mut().map(|(_, v)| v))
+    }
+    pub fn keys(&self) -> impl Iterator<Item = &K> {
+        self.slots.iter().filter_map(|s| s.as_ref().map(|(k, _)| k))
+    }
+    pub fn contains_key(&self, k: &K) -> bool {
+        self.get(k).is_some()
+    }
+    pub fn is_empty(&self) -> bool {
+        self.len() == 0
+    }
+    pub fn remove(&mut self, k: &K) -> Option<V> {
+        let mut i = 0;
+        while i < SLOTS {
+            let hit = matches!(&self.slots[i], Some((kk, _)) if *kk == *k);
+            if hit {
+                self.removed += 1;
+                return self.slots[i].take().map(|(_, v)| v);
+            }
+            i += 1;
+        }
+        None
+    }
 }
